@@ -2,7 +2,7 @@
    Statements only; proofs in Proofs/LimitProofs.v.  Models: Model/Limit.v (run validators over the regenerated
    Gen_limit tables).  `closed` is the networkx representation invariant "edge endpoints are nodes". *)
 From stdpp Require Import strings gmap sets.
-From CG Require Import Model.Limit Proofs.LimitProofs Proofs.LimitLint Proofs.LimitTotal Proofs.LimitApi Proofs.LimitApiRegs Proofs.LimitRegsLint Proofs.LimitRegsGen.
+From CG Require Import Model.Limit Proofs.LimitProofs Proofs.LimitLint Proofs.LimitTotal Proofs.LimitApi Proofs.LimitApiRegs Proofs.LimitRegsLint Proofs.LimitRegsGen Proofs.LimitRegsGenLint Proofs.LimitUnrollAcyclic Model.AcyclicUnroll Proofs.AcyclicUnrollTotal Base.Oracle.
 Open Scope string_scope.
 
 (* obligation on the tables regenerated from tx.py: for every multi-input type t, gatemap t is the non-inverting
@@ -92,6 +92,79 @@ Theorem C05_insert_registers_any_args : ∀ A C s order C', args_ok A → closed
   (∀ v, consistent (c_g C) v → ∃ v', consistent (c_g C') v' ∧ transparent_gen (ra_d A) (ra_q A) C' v' ∧ agrees (dom (c_g C)) v' v).
 Proof. intros A C s order C' H1 H2 H3 H4 H5. destruct (insert_registers_api_spec A C s order C' H1 H2 H3 H4 H5) as (_ & _ & ?). done. Qed.
 Print Assumptions C05_insert_registers_any_args.
+
+(* ... and the result is lint-clean, under the additional guards `lint_args_ok` (q_suffix and the other_flop_io keys contain no dot,
+   every input port of the flop is d_port or an other_flop_io key) and `no_bbout_nodes` (no bb_output typed node in a blackbox-free c) *)
+Theorem C05_insert_registers_any_args_lint_clean : ∀ A C s order C', args_ok A → lint_args_ok A → closed (c_g C) → bb_free C →
+  no_bbout_nodes (c_g C) → values_ok A (c_g C) → lint_clean C → insert_registers_api A C s order = Ok C' → lint_clean C'.
+Proof. exact insert_registers_api_lint. Qed.
+Print Assumptions C05_insert_registers_any_args_lint_clean.
+
+(* The guards are needed: tx.insert_registers does not validate its arguments.  Witnesses (each is replayed on the implementation
+   by the corpus cases harness/corpus/C05-W*.json, where `agree` shows that the code returns exactly these circuits): *)
+Definition ex_regs : Circuit :=
+  {| c_name := "top"; c_bbs := ∅;
+     c_g := {[ "a" := mk_node Input false ∅; "b" := mk_node Input false ∅; "x" := mk_node And false {[ "a"; "b" ]};
+               "y" := mk_node Not false {[ "x" ]}; "z" := mk_node Or true {[ "y"; "a" ]} ]} |}.
+Definition ex_order : list string := ["a"; "b"; "x"; "y"; "z"].
+Definition args_dotted_suffix : reg_args :=
+  {| ra_ff := ff_def; ra_ins := ["clk"; "d"]; ra_outs := ["q"]; ra_d := "d"; ra_q := "q"; ra_other := [("clk", "clk")]; ra_suffix := ".q" |}.
+Definition args_unwired_input : reg_args :=
+  {| ra_ff := {| bb_name := "dffr"; bb_in := {[ "clk"; "d"; "rst" ]}; bb_out := {[ "q" ]} |}; ra_ins := ["clk"; "d"; "rst"]; ra_outs := ["q"];
+     ra_d := "d"; ra_q := "q"; ra_other := [("clk", "clk")]; ra_suffix := reg_suffix |}.
+Definition args_key_is_d : reg_args :=
+  {| ra_ff := ff_def; ra_ins := ["clk"; "d"]; ra_outs := ["q"]; ra_d := "d"; ra_q := "q"; ra_other := [("clk", "clk"); ("d", "a")]; ra_suffix := reg_suffix |}.
+(* q_suffix containing a dot: accepted, the q buffer gets blackbox-pin syntax without an instance -> lint rejects the result *)
+Theorem C05_insert_registers_dotted_suffix_refuted : lint_clean ex_regs ∧ bb_free ex_regs ∧
+  ∃ C', insert_registers_api args_dotted_suffix ex_regs 1 ex_order = Ok C' ∧ ¬ lint_clean C'.
+Proof.
+  split; [vm_compute; reflexivity|]. split; [reflexivity|].
+  destruct (ok_with_spec (λ C', negb (lint_cleanb C')) (insert_registers_api args_dotted_suffix ex_regs 1 ex_order)) as (C' & -> & HP); [vm_compute; reflexivity|].
+  exists C'. split; [done|]. intros Hl. unfold lint_cleanb in HP. by rewrite (bool_decide_eq_true_2 _ Hl) in HP.
+Qed.
+Print Assumptions C05_insert_registers_dotted_suffix_refuted.
+(* a flop input port that is neither d_port nor an other_flop_io key: accepted, the pin stays undriven -> lint rejects the result *)
+Theorem C05_insert_registers_unwired_input_refuted : lint_clean ex_regs ∧ bb_free ex_regs ∧
+  ∃ C', insert_registers_api args_unwired_input ex_regs 1 ex_order = Ok C' ∧ ¬ lint_clean C'.
+Proof.
+  split; [vm_compute; reflexivity|]. split; [reflexivity|].
+  destruct (ok_with_spec (λ C', negb (lint_cleanb C')) (insert_registers_api args_unwired_input ex_regs 1 ex_order)) as (C' & -> & HP); [vm_compute; reflexivity|].
+  exists C'. split; [done|]. intros Hl. unfold lint_cleanb in HP. by rewrite (bool_decide_eq_true_2 _ Hl) in HP.
+Qed.
+Print Assumptions C05_insert_registers_unwired_input_refuted.
+(* other_flop_io naming d_port: accepted, the d pin of every flop is wired to that node instead of the registered one ->
+   the transparent-flop circuit is NOT equivalent to c (z is constant 1 in c, but equals a in the result) *)
+Theorem C05_insert_registers_key_is_d_port_refuted :
+  ∃ C', insert_registers_api args_key_is_d ex_regs 1 ex_order = Ok C' ∧
+    ¬ (∀ v', consistent (c_g C') v' → transparent_gen "d" "q" C' v' → consistent (c_g ex_regs) v').
+Proof.
+  set (v := val_of ["y"]).
+  destruct (ok_with_spec (λ C', consistentb (c_g C') v && negb (consistentb (c_g ex_regs) v) && bool_decide (dom (c_bbs C') = {[ "ff_y" ]})
+                                 && eqb (v (pin "ff_y" "q")) (v (pin "ff_y" "d")))
+              (insert_registers_api args_key_is_d ex_regs 1 ex_order)) as (C' & -> & HP); [vm_compute; reflexivity|].
+  rewrite !andb_true_iff in HP. destruct HP as (((H1 & H2) & H3) & H4).
+  exists C'. split; [done|]. intros H. apply negb_true_iff in H2.
+  assert (consistent (c_g ex_regs) v) as Hc.
+  { apply H; [by apply consistentb_spec|]. intros inst Hin. apply bool_decide_eq_true in H3. rewrite H3 in Hin.
+    apply elem_of_singleton in Hin. subst inst. by apply eqb_prop in H4. }
+  apply consistentb_spec in Hc. congruence.
+Qed.
+Print Assumptions C05_insert_registers_key_is_d_port_refuted.
+
+(* acyclic_unroll of an already acyclic circuit (C18's model and theorems): inside C18's guards the model returns a lint-clean,
+   acyclic circuit with the same inputs and outputs whose outputs agree with c for equal inputs; and the feedback set the code
+   computes for an acyclic circuit is empty, for every node order *)
+Theorem C05_acyclic_unroll_of_acyclic : ∀ C,
+  lint_clean C → c_bbs C = ∅ → closed (c_g C) → plain (c_g C) → valid_names (c_g C) → free_are_inputs (c_g C) →
+  names_ok (c_g C) [] → acyclic (c_g C) →
+  ∃ A, acyclic_unroll C [] = Ok A ∧ c_bbs A = ∅ ∧ lint_clean A ∧ acyclic (c_g A) ∧
+    outputs (c_g A) = outputs (c_g C) ∧ inputs (c_g A) = inputs (c_g C) ∧
+    ∀ v w, consistent (c_g C) v → consistent (c_g A) w → agrees (inputs (c_g C)) w v → agrees (outputs (c_g C)) w v.
+Proof. exact acyclic_unroll_of_acyclic. Qed.
+Print Assumptions C05_acyclic_unroll_of_acyclic.
+Theorem C05_acyclic_feedback_empty : ∀ c ord, acyclic c → fas_of_order c ord = ∅.
+Proof. exact fas_of_acyclic. Qed.
+Print Assumptions C05_acyclic_feedback_empty.
 
 (* termination / non-rejection: for EVERY well-formed circuit (networkx invariant, lint-clean, names that `add` accepts,
    no edge out of a bb_input -- `connect` never makes one) and every k >= 2 the validators accept SOME step list, i.e.
